@@ -68,6 +68,14 @@ def ref_replace(x: bytes, a: bytes, b: bytes) -> bytes:
     return bytes(out)
 
 
+def with_decoy(case, blob, pre):
+    """optionally put an earlier, differently-cased spelling of the same expression a few words before it: what is
+    reported for the real expression must not depend on it (per-call caches keyed too coarsely confuse such neighbours)"""
+    if case.get("decoy") and blob.swapcase() != blob:
+        return blob.swapcase() + b" lorem ipsum " + pre
+    return pre
+
+
 def _scan(text, o):
     try:
         return guarded(5.0, scanner().scan, text, 1)
@@ -98,7 +106,7 @@ SEPS = [b"+", b" + ", b"&", b" & ", b" &amp; ", b"&amp;", b" & _\r\n  ", b"\t+\n
 
 
 def concat_cases():
-    return st.fixed_dictionaries({"parts": st.lists(st.tuples(lit(), quote()), min_size=2, max_size=6), "seps": st.lists(st.sampled_from(SEPS), min_size=5, max_size=5), "embed": st.tuples(st.sampled_from(PRE), st.sampled_from(SUF))})
+    return st.fixed_dictionaries({"parts": st.lists(st.tuples(lit(), quote()), min_size=2, max_size=6), "seps": st.lists(st.sampled_from(SEPS), min_size=5, max_size=5), "embed": st.tuples(st.sampled_from(PRE), st.sampled_from(SUF)), "decoy": st.sampled_from([False, False, True])})
 
 
 def check_concat(case) -> Outcome:
@@ -110,6 +118,7 @@ def check_concat(case) -> Outcome:
         blob += q + c + q
     value = b"".join(c for c, _ in case["parts"])
     pre, suf = case["embed"]
+    pre = with_decoy(case, blob, pre)
     text = pre + blob + suf
     a, b = len(pre), len(pre) + len(blob)
     root = _scan(text, o)
@@ -130,7 +139,7 @@ REV = [(b"reverse(", "string", "reverse"), (b"reversed(", "string", "reverse"), 
 
 
 def reverse_cases():
-    return st.fixed_dictionaries({"lit": lit(0, 12), "q": quote(), "fn": st.sampled_from(REV), "close": st.sampled_from([b")", b" )", b"\t)"]), "embed": st.tuples(st.sampled_from(PRE), st.sampled_from(SUF))})
+    return st.fixed_dictionaries({"lit": lit(0, 12), "q": quote(), "fn": st.sampled_from(REV), "close": st.sampled_from([b")", b" )", b"\t)"]), "embed": st.tuples(st.sampled_from(PRE), st.sampled_from(SUF)), "decoy": st.sampled_from([False, False, True])})
 
 
 def check_reverse(case) -> Outcome:
@@ -141,6 +150,7 @@ def check_reverse(case) -> Outcome:
     pre, suf = case["embed"]
     if fn.lower().startswith(b"reverse") and pre[-1:].isalnum():
         return o.exclude("no delimiter before the function name")
+    pre = with_decoy(case, blob, pre)
     text = pre + blob + suf
     a, b = len(pre), len(pre) + len(blob)
     root = _scan(text, o)
@@ -170,6 +180,7 @@ def replace_cases():
             "flags": st.sampled_from([b"", b"g", b"gi", b"gim", b"m"]),
             "fn_case": st.integers(0, 2),
             "embed": st.tuples(st.sampled_from(PRE), st.sampled_from(SUF)),
+            "decoy": st.sampled_from([False, False, True]),
         }
     )
 
@@ -213,6 +224,7 @@ def check_replace(case) -> Outcome:
     pre, suf = case["embed"]
     if d == "vba" and pre[-1:].isalnum():
         return o.exclude("no delimiter before the function name")
+    pre = with_decoy(case, blob, pre)
     text = pre + blob + suf
     a, b = len(pre), len(pre) + len(blob)
     root = _scan(text, o)
